@@ -519,8 +519,22 @@ where
         Ok(w) => w,
         Err(_) => return ctx.skipped("baseline", "setup/trim refused (reported under C01/C09)"),
     };
-    let shape = pick_shape(rng);
-    let deg = if S::KIND == Kind::Univariate { below(rng, cfg.supported_degree + 1) } else { 0 };
+    let mut shape = pick_shape(rng);
+    let mut deg = if S::KIND == Kind::Univariate { below(rng, cfg.supported_degree + 1) } else { 0 };
+    let mut cfg = cfg;
+    if S::NAME == "ligero-uni" && !is_large() && rng.next_u32() % 5 == 0 {
+        // lengths at which the documented matrix shape changes: 2*len = t * 4^j exactly, and one to either side
+        if let Ok(t0) = ark_poly_commit::linear_codes::verif_calculate_t::<LFr>(w.ck.sec_param(), w.ck.distance(), 1 << 30) {
+            let base = [2 * t0, 8 * t0][below(rng, 2)];
+            let len = base + below(rng, 3) - 1;
+            if len >= 2 && len <= 4000 {
+                deg = len - 1;
+                shape = Shape::Full;
+                cfg.max_degree = deg;
+                cfg.supported_degree = deg;
+            }
+        }
+    }
     let p = S::gen_poly(&cfg, shape, deg, rng);
     let q = loop {
         let q = S::gen_poly(&cfg, Shape::Full, deg, rng);
@@ -555,6 +569,23 @@ where
         Err(pn) => return ctx.violated("metadata-dimensions", "compute_dimensions", desc, json!({"panic": pn, "len": coeffs.len()})),
     };
     let md = &cm[0].metadata;
+    if S::NAME.starts_with("ligero") {
+        // the documented Ligero shape, computed here: t openings for this length, n = the power of two at or above
+        // sqrt(ceil(2 len / t)) rounded up, m = ceil(len / n)
+        if let Ok(t) = ark_poly_commit::linear_codes::verif_calculate_t::<LFr>(w.ck.sec_param(), w.ck.distance(), coeffs.len()) {
+            let q = (2 * coeffs.len() + t - 1) / t;
+            let mut s = (q as f64).sqrt() as usize;
+            while s * s < q {
+                s += 1;
+            }
+            while s > 0 && (s - 1) * (s - 1) >= q {
+                s -= 1;
+            }
+            let n = s.max(1).next_power_of_two();
+            let m = (coeffs.len() + n - 1) / n;
+            ctx.check((md.n_rows, md.n_cols) == (n, m), "documented-matrix-shape", "commit", desc.clone(), || json!({"metadata": [md.n_rows, md.n_cols], "documented": [n, m], "len": coeffs.len(), "t": t}));
+        }
+    }
     let dims_ok = md.n_rows == dr && md.n_cols == dc && dr * dc >= coeffs.len();
     ctx.check(dims_ok, "metadata-dimensions", "commit", desc.clone(), || json!({"metadata": [md.n_rows, md.n_cols, md.n_ext_cols], "compute_dimensions": [dr, dc], "len": coeffs.len()}));
     if !dims_ok {
